@@ -382,10 +382,16 @@ func main() {
 		firstOpChild()
 	case "firstgenop":
 		firstGenChild()
+	case "firstgenconcop":
+		firstGenConcChild()
 	}
 	c := mon.Init(*propID)
 	if *mode == "firstuse" {
 		firstUse(c)
+		c.Finish()
+	}
+	if *mode == "firstopsconc" { // every registered operation: first use of the process from 16 goroutines at once
+		firstGenConc(c)
 		c.Finish()
 	}
 	if *mode == "firstops" {
